@@ -33,7 +33,10 @@ func runC07(c *eng.Ctx) {
 	if fn := c.NeedFunc("weed/storage/erasure_coding", "SearchNeedleFromSortedIndex"); fn != nil {
 		reads := eng.Find(fn, eng.PlainCallTo("os.File).ReadAt"))
 		var cbs []ssa.Instruction
-		for _, in := range eng.Find(fn, func(in ssa.Instruction) bool { cl, ok := in.(*ssa.Call); return ok && eng.IsParamLike(cl.Call.Value, "processNeedleFn") }) {
+		for _, in := range eng.Find(fn, func(in ssa.Instruction) bool {
+			cl, ok := in.(*ssa.Call)
+			return ok && eng.IsParamLike(cl.Call.Value, "processNeedleFn")
+		}) {
 			cbs = append(cbs, in)
 		}
 		if len(reads) != 1 || len(cbs) != 1 {
